@@ -57,6 +57,9 @@ def cases(tier, seed):
                     if tier == "quick" and mi > 0 and mp == "scbk":
                         continue
                     out.append({"sub": "mol", "mol": mi, "kind": kind, "mapping": mp, "utd": utd})
+    if tier == "quick":
+        # frozen orbitals (active electron count differs from the molecule's) under the symmetry-conserving encoding
+        out += [{"sub": "mol", "mol": 4, "kind": "UCCSD", "mapping": mp, "utd": utd} for mp in ("SCBK", "scbk") for utd in (False, True)]
     out += [{"sub": "qubit_ham", "i": i} for i in range(12 if tier == "quick" else 200)]
     out += [{"sub": "simulate", "i": i} for i in range(15 if tier == "quick" else 150)]
     return out
